@@ -10,7 +10,8 @@
 //!  * no record for `WATCHDOG_S` seconds (monitor 3) -> the child is killed -> `Outcome::Hung`.
 //! In each case the parent forks again for the remaining cases. Nothing leaks into the worker.
 //! The time-out is the only wall-clock value; it influences results only when a decoder really
-//! does not return (a case takes < 10 ms; the limit is 120 s).
+//! does not return (a case takes < 10 ms; the limit is 30 s, 5 s once a hang has been seen in
+//! the process or when re-playing a recorded hang).
 use std::cell::{Cell, RefCell};
 use std::panic::AssertUnwindSafe;
 use std::sync::Arc;
@@ -18,9 +19,9 @@ use std::sync::atomic::{AtomicBool, Ordering};
 
 use crate::alloc::{self, AllocStats};
 
-pub const WATCHDOG_S: i32 = 120;
+pub const WATCHDOG_S: i32 = 30;
 /// once a decoder has been seen hanging in this process, later cases get a short limit
-const WATCHDOG_AFTER_HANG_S: i32 = 10;
+const WATCHDOG_AFTER_HANG_S: i32 = 5;
 
 /// What a decoder closure returns: `Ok(equal_to_the_honest_value)` or the error text.
 pub type Dec = Result<bool, String>;
@@ -67,6 +68,11 @@ thread_local! {
 }
 
 static HANG_SEEN: AtomicBool = AtomicBool::new(false);
+
+/// Re-playing a recorded hang: use the short limit from the start.
+pub fn expect_hang() {
+    HANG_SEEN.store(true, Ordering::SeqCst);
+}
 
 /// Install the panic hook: inside a monitored decode it records location + message and prints
 /// nothing; anywhere else it is a panic of the harness itself and is printed.
@@ -181,7 +187,9 @@ fn describe_status(status: i32) -> String {
     if libc::WIFSIGNALED(status) {
         let sig = libc::WTERMSIG(status);
         let name = match sig {
-            libc::SIGABRT => "SIGABRT (abort: failed allocation, double panic or explicit abort)",
+            libc::SIGABRT => {
+                "SIGABRT (abort: failed allocation, stack overflow, double panic or explicit abort)"
+            }
             libc::SIGSEGV => "SIGSEGV (stack overflow or invalid memory access)",
             libc::SIGBUS => "SIGBUS",
             libc::SIGILL => "SIGILL",
